@@ -8,6 +8,7 @@ import (
 	"fmt"
 	"reflect"
 	"strings"
+	"sync"
 	"testing"
 
 	"pgregory.net/rapid"
@@ -166,6 +167,8 @@ var frozen = func() map[string]bool {
 // dispCase: one (code, direction) pair, crossed with the header's Status and with what follows the header:
 // the two empty blocks (WordCount 0, ByteCount 0) or, for implemented pairs, the blocks of the
 // factory-fresh structure of that pair (non-empty for every structure that has a parameter field).
+// The empty blocks must be accepted by an implemented response pair under a non-zero Status (an error
+// reply); the populated variant must decode at every Status.
 // Which structure a message decodes to depends on the command code and the reply flag only.
 type dispCase struct {
 	Code   uint8  `json:"code"`
@@ -194,7 +197,9 @@ func checkDispatch(c dispCase) []vf.Finding {
 		}
 		body, err := smbgen.NewValid(e).Marshal()
 		if err != nil {
-			return []vf.Finding{vf.F(subject, "marshal-error", "factory-fresh %s: %v", want, err)}
+			// the command itself refuses its factory-fresh values: C04/C05's subject; there are no blocks
+			// to decode, and the empty-block variant is what is left of this pair's dispatch
+			return skipUnjudged("dispatch-exhaustive")
 		}
 		wire = append(hb, body...)
 	}
@@ -204,7 +209,11 @@ func checkDispatch(c dispCase) []vf.Finding {
 		// An error is fine for pairs MS-CIFS does not define or the library never implemented, and for a
 		// request followed by two empty blocks: only a reply can be an error reply, so for a request
 		// these 35 bytes are not the encoding of any structure (the populated variant covers its dispatch).
-		if !c.Reply && !c.Body {
+		// The same holds for a reply whose Status is 0: header + 00 00 00 is what an ERROR reply looks
+		// like, and a successful reply of a command whose response has parameter words is not these 35
+		// bytes either, so at Status 0 the decoder may refuse them as well as accept them (when it accepts,
+		// type and header are judged below all the same).
+		if !c.Body && (!c.Reply || c.Status == 0) {
 			return nil
 		}
 		if _, ok := expectedType(c); ok && implemented(c) {
@@ -279,6 +288,7 @@ func TestDispatchExhaustive(t *testing.T) {
 			}
 		}
 	}, checkDispatch, func(c dispCase) bool { _, ok := codeNames[c.Code]; return ok })
+	noteUnjudged(s, "dispatch-exhaustive")
 }
 
 // ---- framing and repeatability with populated commands -------------------------------------------------------
@@ -333,7 +343,10 @@ func checkFraming(c msgCase) []vf.Finding {
 	}
 	wire, err := m.Marshal()
 	if err != nil {
-		return []vf.Finding{vf.F(c.Struct, "marshal-error", "%v", err)}
+		if c.commandRefuses() {
+			return skipUnjudged("framing")
+		}
+		return []vf.Finding{vf.F(c.Struct, "marshal-error", "the command encodes on its own, the message does not: %v", err)}
 	}
 	var fs []vf.Finding
 	if len(wire) < 32 || !bytes.Equal(wire[:32], mustHeader(m)) {
@@ -382,6 +395,45 @@ func safeUnmarshal(m *message.Message, wire []byte) (err error) {
 	return m.Unmarshal(wire)
 }
 
+// commandRefuses reports whether a command structure, encoded on its own (not through a Message), returns
+// an error. Which assignments of its fields a command encodes is the subject of C04/C05; the envelope is
+// judged on the messages whose command does encode. A refusal by Message.Marshal of a message whose
+// command encodes on its own remains a finding, and so does a panic.
+func commandRefuses(cmd smbgen.Cmd) (refused bool) {
+	defer func() {
+		if recover() != nil {
+			refused = false
+		}
+	}()
+	_, err := cmd.Marshal()
+	return err != nil
+}
+
+// commandRefuses: the same question for the command of a case, asked of a newly built copy.
+func (c msgCase) commandRefuses() bool {
+	m, err := c.build()
+	return err == nil && commandRefuses(m.Command)
+}
+
+// notJudged counts, per sub-check, the cases left unjudged because the command alone refuses to encode.
+var notJudged = struct {
+	sync.Mutex
+	n map[string]int64
+}{n: map[string]int64{}}
+
+func skipUnjudged(sub string) []vf.Finding {
+	notJudged.Lock()
+	notJudged.n[sub]++
+	notJudged.Unlock()
+	return nil
+}
+
+func noteUnjudged(s *vf.Sub, sub string) {
+	notJudged.Lock()
+	defer notJudged.Unlock()
+	s.Count("not-judged:command-alone-refuses-to-encode", notJudged.n[sub])
+}
+
 // genMsg draws a structure and fills it; maxBytes bounds every single buffer. All buffers of a structure
 // share one data block of at most 65535 bytes (ByteCount is 16 bits), so the bound is lowered to what
 // the structure's buffers can reach together (a pad that mirrors another buffer's length counts twice).
@@ -415,6 +467,7 @@ func TestFraming(t *testing.T) {
 		}
 		return genMsg(t, max)
 	}, checkFraming, func(c msgCase) bool { return len(c.Fields) > 0 })
+	noteUnjudged(s, "framing")
 }
 
 // ---- repeatability: every Marshal of one message yields the same bytes ------------------------------------------
@@ -426,7 +479,10 @@ func checkRepeat(c msgCase) []vf.Finding {
 	}
 	first, err := m.Marshal()
 	if err != nil {
-		return []vf.Finding{vf.F(c.Struct, "marshal-error", "%v", err)}
+		if c.commandRefuses() {
+			return skipUnjudged("repeat-marshal")
+		}
+		return []vf.Finding{vf.F(c.Struct, "marshal-error", "the command encodes on its own, the message does not: %v", err)}
 	}
 	first = append([]byte{}, first...)
 	wc1, words1, data1, ferr := frame(first)
@@ -463,6 +519,7 @@ func TestRepeatMarshal(t *testing.T) {
 		smbgen.Fill(t, cmd, smbgen.Options{MaxBytes: 24})
 		return msgCase{genHdr(t), name, smbgen.Snapshot(cmd), rapid.IntRange(2, 5).Draw(t, "repeats")}
 	}, checkRepeat, func(c msgCase) bool { return c.Repeats >= 2 })
+	noteUnjudged(s, "repeat-marshal")
 }
 
 // ---- block sizes up to the 255-word / 65535-byte limits ---------------------------------------------------
@@ -541,6 +598,20 @@ func checkBlockLimits(c blockCase) []vf.Finding {
 				who = "Data.Marshal"
 			}
 			fs = append(fs, vf.F(who, "emitted-block-differs", "%d words, %d bytes: %d bytes emitted, %d expected, first difference at offset %d", c.Words, c.Bytes, len(got), len(blocks), at))
+		}
+		// The same parameter block built the way every AndX structure builds its own: the words of the AndX
+		// block (two words) first, the structure's words behind them in a second call. The count byte must
+		// count all of them and the block must be the same bytes.
+		if c.Words >= 3 && c.Bytes == 0 {
+			sp := parameters.NewParameters()
+			sp.AddWordsFromBytesStream(append([]byte{}, words[:4]...))
+			sp.AddWordsFromBytesStream(append([]byte{}, words[4:]...))
+			switch sb, serr := sp.Marshal(); {
+			case serr != nil:
+				fs = append(fs, vf.F("Parameters.Marshal", "block-built-in-two-calls-refused", "2 + %d words: %v", c.Words-2, serr))
+			case !bytes.Equal(sb, pb):
+				fs = append(fs, vf.F("Parameters.Marshal", "block-built-in-two-calls-differs", "2 + %d words: %d bytes emitted with count byte %#x, %d bytes with count byte %#x when built in one call", c.Words-2, len(sb), sb[:min(1, len(sb))], len(pb), pb[:min(1, len(pb))]))
+			}
 		}
 	}()
 	p := parameters.NewParameters()
@@ -632,13 +703,21 @@ func checkEncodeLimits(c limitCase) []vf.Finding {
 	for i := range data {
 		data[i] = c.Seed + byte(i*7)
 	}
-	set := func(cmd smbgen.Cmd) {
+	// the one parameter word and the data, by name: where a field stands in the declaration is not asked here
+	word := map[bool]string{false: "EchoCount", true: "SequenceNumber"}[c.Reply]
+	echoFields := func(cmd smbgen.Cmd) (w, d reflect.Value, ok bool) {
 		rv := reflect.ValueOf(cmd).Elem()
-		rv.FieldByName(smbgen.OwnFields(cmd)[0].Name).SetUint(uint64(c.Word)) // EchoCount / SequenceNumber: the one parameter word
-		rv.FieldByName("Data").SetBytes(append([]byte{}, data...))
+		w, d = rv.FieldByName(word), rv.FieldByName("Data")
+		ok = w.IsValid() && w.CanUint() && d.IsValid() && d.Kind() == reflect.Slice && d.Type().Elem().Kind() == reflect.Uint8
+		return
 	}
 	cmd := smbgen.New(e)
-	set(cmd)
+	wf, df, ok := echoFields(cmd)
+	if !ok {
+		return []vf.Finding{vf.F(name, "wrong-structure-for-code-and-direction", "the factories serve SMB_COM_ECHO with %T, which has no %s / Data", cmd, word)}
+	}
+	wf.SetUint(uint64(c.Word))
+	df.SetBytes(append([]byte{}, data...))
 	m := message.NewMessage()
 	m.Header.Status = 0x01020304
 	m.Header.MID = 0x0506
@@ -677,12 +756,12 @@ func checkEncodeLimits(c limitCase) []vf.Finding {
 	if hb, _ := back.Header.Marshal(); !bytes.Equal(hb, wire[:32]) {
 		fs = append(fs, vf.F(name, "decoded-header-fields-differ", "%x vs %x", hb, wire[:32]))
 	}
-	want := smbgen.New(e)
-	set(want)
-	word := smbgen.OwnFields(want)[0].Name
-	bv, wv := reflect.ValueOf(back.Command).Elem(), reflect.ValueOf(want).Elem()
-	if bv.FieldByName(word).Uint() != wv.FieldByName(word).Uint() || !bytes.Equal(bv.FieldByName("Data").Bytes(), data) {
-		fs = append(fs, vf.F(name, "decoded-blocks-differ", "%d data bytes: %s %#x, %d data bytes decoded", c.Len, word, bv.FieldByName(word).Uint(), bv.FieldByName("Data").Len()))
+	bw, bd, ok := echoFields(back.Command)
+	if !ok {
+		return append(fs, vf.F(name, "wrong-structure-for-code-and-direction", "decoded as %T", back.Command))
+	}
+	if bw.Uint() != uint64(c.Word) || !bytes.Equal(bd.Bytes(), data) {
+		fs = append(fs, vf.F(name, "decoded-blocks-differ", "%d data bytes: %s %#x, %d data bytes decoded", c.Len, word, bw.Uint(), bd.Len()))
 	}
 	return fs
 }
@@ -750,7 +829,7 @@ func checkMessageReuse(c reuseCase) []vf.Finding {
 	w1, err1 := wireOf(c.First, false)
 	w2, err2 := wireOf(c.Second, c.SecondEmpty)
 	if err1 != nil || err2 != nil {
-		return nil // not encodable: reported by framing
+		return nil // not encodable: framing judges that (a refusal by the command alone is C04/C05's subject)
 	}
 	fresh := message.NewMessage()
 	if err := safeUnmarshal(fresh, append([]byte{}, w2...)); err != nil {
@@ -936,7 +1015,7 @@ func checkChange(c changeCase) []vf.Finding {
 	}
 	first, err := safeMessageMarshal(m)
 	if err != nil {
-		return nil // not encodable: reported by framing
+		return nil // not encodable: framing judges that (a refusal by the command alone is C04/C05's subject)
 	}
 	first = append([]byte{}, first...)
 	subject := c.Before.Struct
@@ -974,7 +1053,7 @@ func checkChange(c changeCase) []vf.Finding {
 	}
 	want, werr := safeMessageMarshal(fm)
 	if werr != nil {
-		return nil // the new values are not encodable on their own: reported by framing
+		return nil // the new values are not encodable on their own: framing judges that
 	}
 	if err2 != nil {
 		return []vf.Finding{vf.F(subject, "marshal-after-change-fails", "changed %s: %v (a new message with the same values encodes)", c.Changed, err2)}
